@@ -1191,8 +1191,10 @@ def main():
     import codec2lean  # the frame codec, same machinery
     import hs2lean     # the handshake machine
     import coll2lean   # the UTF-8 collector of fragmented text messages
+    import frame2lean  # Frame: size, the two encoders, close payloads
     gens = GENERATORS + [('Ctx.lean', ctx2lean.gen_ctx), ('CodecGen.lean', codec2lean.gen_codec),
-                         ('HsGen.lean', hs2lean.gen_hs), ('CollGen.lean', coll2lean.gen_coll)]
+                         ('HsGen.lean', hs2lean.gen_hs), ('CollGen.lean', coll2lean.gen_coll),
+                         ('FrameGen.lean', frame2lean.gen_frame)]
     for name, fn in gens:
         try:
             text = fn(repo)
